@@ -577,9 +577,11 @@ class Context:
         :param status: The Supvisors instance that sent the event.
         :return: None.
         """
-        # processes will be dealt in FAILED processing
-        status.state = SupvisorsInstanceStates.FAILED
-        self.export_status(status)
+        # NOTE: the notification may be processed after the Supvisors instance has been invalidated on inactivity
+        if status.has_active_state():
+            # processes will be dealt in FAILED processing
+            status.state = SupvisorsInstanceStates.FAILED
+            self.export_status(status)
 
     def on_process_removed_event(self, status: SupvisorsInstanceStatus, event: Payload) -> None:
         """ Method called upon reception of a process removed event from the remote Supvisors instance.
